@@ -5,6 +5,7 @@ What is NOT modelled: goroutine scheduling, wall-clock reads inside dependencies
 by the replica runs (harness/c19.go), which are tests.
 -/
 import ElysModel.Determinism.Model
+import ElysModel.Gen.MapRanges
 namespace Elys.Determinism.C19
 open FMap
 
@@ -85,6 +86,36 @@ theorem shared_constant_witness :
   intro h
   have := h 0 () 2 3 false
   simp at this
+
+/-! ### every range over a Go map in the code (regenerated table `Gen.MapRanges.sites`, harness/cmd/mapranges)
+Go randomises the order in which a map is iterated, so every such loop in the state transition must be insensitive to the order. -/
+
+/-- what a loop is, as read by a human once; re-read whenever the regenerated table differs from this one -/
+inductive RangeCls
+  | wiring        -- app construction / CLI plumbing: builds another map or a set; never runs inside a block
+  | membership    -- looks for any matching element and returns a boolean that does not depend on which one is found first
+  | commutative   -- runs in block processing; its effect is proved independent of the order (`burner_perm`)
+  | queryOnly     -- gRPC query path: reads state, writes nothing, is not part of consensus
+deriving Repr, DecidableEq
+
+open Elys.Gen.MapRanges in
+def expectedRanges : List (Site × RangeCls) := [
+  ({ pkg := "app", file := "app.go", fn := "*ElysApp.ModuleAccountAddrs", expr := "maccPerms", typ := "map[string][]string" }, .wiring),
+  ({ pkg := "app", file := "app.go", fn := "GetMaccPerms", expr := "maccPerms", typ := "map[string][]string" }, .wiring),
+  ({ pkg := "app", file := "app.go", fn := "*ElysApp.AutoCliOpts", expr := "app.mm.Modules", typ := "map[string]interface{}" }, .wiring),
+  ({ pkg := "x/amm/utils", file := "can_create_module_account_at_addr.go", fn := "CanCreateModuleAccountAtAddr", expr := "ExtraAccountTypes", typ := "map[reflect.Type]struct{}" }, .membership),
+  ({ pkg := "x/burner/keeper", file := "burn.go", fn := "Keeper.BurnTokensForAllDenoms", expr := "balances", typ := "map[string]github.com/cosmos/cosmos-sdk/types.Coins" }, .commutative),
+  ({ pkg := "x/masterchef/keeper", file := "query_pool_rewards.go", fn := "Keeper.generateExternalRewardsApr", expr := "rewardsPerPool", typ := "map[uint64]cosmossdk.io/math.LegacyDec" }, .queryOnly)
+]
+
+/-- the regenerated table IS the table that was read: a new range over a map anywhere in x/ or app/ (or one that moved, or whose
+ranged expression or type reads differently) breaks this theorem, and with it the check, until it has been read and classified -/
+theorem ranges_as_expected : Elys.Gen.MapRanges.sites = expectedRanges.map (·.1) := by decide
+
+/-- the only map-ordered loop that runs in block processing is the burner's, whose result is order-independent (`burner_perm`) -/
+theorem only_burner_in_block_processing :
+    ((expectedRanges.filter (fun sc => sc.2 == .commutative || sc.2 == .membership)).map (·.1.fn)) =
+      ["CanCreateModuleAccountAtAddr", "Keeper.BurnTokensForAllDenoms"] := by decide
 
 /-- non-vacuity: three denoms burned in two different orders -/
 example : (burnAll [("uusdc", 1000), ("uatom", 500), ("uelys", 70)] [("uusdc", 100), ("uatom", 50), ("uelys", 7)]).get "uatom" =
